@@ -22,7 +22,7 @@ REQUIRED_BUCKETS = ['map:insert', 'map:overwrite', 'map:pop', 'map:copy', 'map:c
                     'map:single-root-branch', 'map:pop-prunes', 'map:copy-diverged',
                     'api:write:str', 'api:write:tuple', 'api:write:text', 'api:write:block',
                     'api:read:query', 'api:read:get_bindings', 'api:read:call', 'api:read:reference', 'api:ambiguous', 'api:unknown',
-                    'api:hooks-same-param-different-spelling', 'api:hooks-distinct-params', 'api:spellings-differ', 'api:explicit-macro-reference',
+                    'api:hooks-same-param-different-spelling', 'api:one-hook-same-param-two-spellings', 'api:hooks-distinct-params', 'api:spellings-differ', 'api:explicit-macro-reference',
                     'api:class-registered-twice', 'api:method-with-class-module']
 ORACLE_COUNTERS = ['oracle_evals', 'map_queries', 'api_roundtrips']
 ASSUMPTIONS = ['private _selector_tree/_selector_map are walked for the agreement invariant when present']
@@ -347,7 +347,12 @@ def run_api(ctx, case):
                       ('parse', lambda: gin.parse_config('%s%s.%s = 1' % (pre, b, prm))),
                       ('query', lambda: gin.query_parameter(pre + b + '.' + prm)),
                       ('get_configurable', lambda: gin.get_configurable(b)),
-                      ('reference', lambda: gin.parse_config('c8cons.v = @%s' % b))]:
+                      ('reference', lambda: gin.parse_config('c8cons.v = @%s' % b)),
+                      # an ambiguous name is not an unknown one: permission to skip unknown names does not cover it
+                      ('parse with skip_unknown=True', lambda: gin.parse_config('%s%s.%s = 1' % (pre, b, prm), skip_unknown=True)),
+                      ('parse with skip_unknown=[name]', lambda: gin.parse_config('%s%s.%s = 1' % (pre, b, prm), skip_unknown=[b])),
+                      ('block with skip_unknown=True', lambda: gin.parse_config('%s%s:\n  %s = 1\n' % (pre, b, prm), skip_unknown=True)),
+                      ('reference with skip_unknown=True', lambda: gin.parse_config('c8cons.v = @%s()' % b, skip_unknown=True))]:
       try:
         fn()
         ctx.check(False, 'ambiguous-spelling-accepted', '%s with ambiguous spelling %r did not raise' % (label, b))
@@ -382,6 +387,12 @@ def run_api(ctx, case):
         ctx.bucket('api:hooks-same-param-different-spelling')
       _HOOK_PLAN[0] = {pre + s1 + '.' + other: 'h0'}
       _HOOK_PLAN[1] = {pre + s2 + '.' + other: 'h1'}
+      if s1 != s2 and case['wi'] % 3 == 0:
+        # one hook returning the same parameter under two spellings (the second possibly as a tuple key)
+        ctx.bucket('api:one-hook-same-param-two-spellings')
+        k2 = pre + s2 + '.' + other if case['ri'] % 2 else (sc, s2, other)
+        _HOOK_PLAN[0] = {pre + s1 + '.' + other: 'h0', k2: 'h1'}
+        _HOOK_PLAN[1] = None
       try:
         gin.finalize()
         ctx.check(False, 'hook-conflict-by-spelling-undetected' if s1 != s2 else 'hook-conflict-undetected',
